@@ -161,6 +161,27 @@ func ruleW5(w *world.World, r *report.RuleResult) {
 	}
 }
 
+// isRequestRead: the call obtains the next request from the connection - the RESP frame reader
+// ((*resp.Reader).ReadValue / ReadMultiBulk) or the project's ReadMessage.
+func isRequestRead(c ssa.CallInstruction) bool {
+	f := c.Common().StaticCallee()
+	if f == nil {
+		return false
+	}
+	if world.BaseName(f) == "ReadMessage" {
+		return true
+	}
+	return isFrameRead(c)
+}
+
+func isFrameRead(c ssa.CallInstruction) bool {
+	f := c.Common().StaticCallee()
+	if f == nil || (f.Name() != "ReadValue" && f.Name() != "ReadMultiBulk") || f.Signature.Recv() == nil {
+		return false
+	}
+	return world.TypeIs(f.Signature.Recv().Type(), "tidwall/resp", "Reader")
+}
+
 // connLoop finds the connection loop: the function that reads request messages
 // (internal.ReadMessage) and from which the dispatcher is reached, directly, through an
 // immediately invoked closure or a helper; cmdCall is that call.
@@ -174,7 +195,7 @@ func connLoop(w *world.World) (*ssa.Function, ssa.Instruction, error) {
 	for _, fn := range w.FuncsIn("sugardb") {
 		reads := false
 		for _, c := range world.Calls(fn) {
-			if f := c.Common().StaticCallee(); f != nil && world.BaseName(f) == "ReadMessage" {
+			if isRequestRead(c) {
 				reads = true
 			}
 		}
@@ -190,7 +211,22 @@ func connLoop(w *world.World) (*ssa.Function, ssa.Instruction, error) {
 				continue
 			}
 			if callee == disp || (world.InModule(callee) && w.ReachCalls(callee).In[disp]) {
-				loop, cmdCall = fn, c
+				// the request read and the command call belong to one loop (the embedded API's
+				// wrappers also call the dispatcher and parse a reply, but only once)
+				inLoop := false
+				for _, rc := range world.Calls(fn) {
+					if !isRequestRead(rc) {
+						continue
+					}
+					for d := rc.Block(); d != nil; d = d.Idom() {
+						if nl := naturalLoop(d); nl != nil && nl[rc.Block()] && nl[c.Block()] {
+							inLoop = true
+						}
+					}
+				}
+				if inLoop {
+					loop, cmdCall = fn, c
+				}
 			}
 		}
 	}
@@ -345,7 +381,7 @@ func ruleCL(w *world.World, r *report.RuleResult) {
 	// loop header: the block containing the message read (ReadMessage) — back edges to it
 	var header *ssa.BasicBlock
 	for _, c := range world.Calls(loop) {
-		if f := c.Common().StaticCallee(); f != nil && world.BaseName(f) == "ReadMessage" {
+		if isRequestRead(c) {
 			header = c.Block()
 		}
 	}
